@@ -762,10 +762,17 @@ class NetCDF4(FileHandler):
                                     group, dim
                                 )
                     dims = [dim_map[dim] for dim in var.dimensions]
-                    if len(dims) == 0 and var[:] is np.ma.masked:
+                    data = var[:]
+                    if len(dims) == 0 and data is np.ma.masked:
                         ds[path + var_name] = dims, np.nan, dict(var.__dict__)
                     else:
-                        ds[path + var_name] = dims, var[:], dict(var.__dict__)
+                        # netCDF4 always returns masked arrays; xarray turns
+                        # them into floats. Keep the original data type (e.g.
+                        # of integer indices) if no value is masked at all:
+                        if isinstance(data, np.ma.MaskedArray) \
+                                and not np.ma.is_masked(data):
+                            data = data.data
+                        ds[path + var_name] = dims, data, dict(var.__dict__)
         except RuntimeError:
             raise KeyError(f"Could not load the variable {path + var_name}!")
 
